@@ -30,8 +30,14 @@ func init() {
 	})
 }
 
-var staticClasses = map[string]bool{"TypeError": true, "UnboundVariableErr": true, "UnboundFunctionErr": true, "BadArityErr": true, "InvalidTypeErr": true}
-var shapeClasses = map[string]bool{"InvalidUnboundedInSendAll": true, "InvalidAllotmentInSendAll": true}
+// static-class failures: type error, unbound variable or function, wrong arity, unknown type
+func isStaticCause(errType string) bool {
+	switch errType {
+	case "TypeError", "UnboundVariableErr", "UnboundFunctionErr", "BadArityErr", "InvalidTypeErr":
+		return true
+	}
+	return false
+}
 
 var goodValue = map[string]string{"monetary": "USD 5", "account": "a", "portion": "1/2", "asset": "USD", "number": "5", "string": "k"}
 
@@ -185,13 +191,13 @@ func runC17(w *mc.Worker) {
 						if out.Err != nil {
 							c.Observed = out.ErrType + ": " + out.Err.Error()
 							switch {
-							case staticClasses[out.ErrType]:
+							case isStaticCause(out.ErrType):
 								feat := ""
 								if strings.Contains(text, " + ") || strings.Contains(text, " - ") {
 									feat = ":infix"
 								}
 								w.Violation("C17.static-failure:"+out.ErrType+feat, "the checker reported no error, yet execution failed with "+out.ErrType+": "+out.Err.Error(), len(text), c)
-							case nAll == 0 && shapeClasses[out.ErrType]:
+							case nAll == 0 && causeOf(out.ErrType) == "send-all-shape":
 								w.Violation("C17.sendall-shape:"+out.ErrType, "the checker reported nothing at all, yet execution failed because of the shape of a send-all source", len(text), c)
 							}
 						}
@@ -267,9 +273,9 @@ func c17Nested(w *mc.Worker, flagsOn map[string]struct{}) {
 				}
 				c := Case{Script: text, Balances: balStr(bal), Observed: out.ErrType + ": " + out.Err.Error(), Extra: map[string]any{"edits": eds, "diagnostics": diagSet(res)}}
 				switch {
-				case staticClasses[out.ErrType]:
+				case isStaticCause(out.ErrType):
 					w.Violation("C17.static-failure:"+out.ErrType, "the checker reported no error, yet execution failed with "+out.ErrType, len(text), c)
-				case nAll == 0 && shapeClasses[out.ErrType]:
+				case nAll == 0 && causeOf(out.ErrType) == "send-all-shape":
 					w.Violation("C17.sendall-shape:"+out.ErrType, "the checker reported nothing at all, yet execution failed because of the shape of a send-all source", len(text), c)
 				}
 			})
